@@ -23,6 +23,8 @@ CHECKS = {
          'bounded exhaustive enumeration of (terminal set, input) against a reference lexer'),
  'C06': ('exploration', '4 C06', 'Tokens: 23 spellings of a newline-matching terminal (kept/ignored) x grammar shapes x 5 parser/lexer configurations x str/bytes x every input over {a,b,newline,blank} up to the bound, every token of parse() and lex() checked against count-newlines coordinates. Tree meta: SHAPE grammars with a newline-bearing filtered terminal x propagate_positions x engines x single-derivation inputs, every node span compared with the span of its reference derivation node.',
          'bounded exhaustive enumeration against an absolute coordinate function and reference derivation spans'),
+ 'C15': ('exploration', '4 C15', 'Newline-bearing grammars x parser/lexer pairs x every ASCII input up to the bound x representation: bytes must give the same observation as str; every TextSlice window (all prefixes/suffixes over {a,newline} up to length 2) must give the str observation shifted by the window start with line/column recomputed absolutely from the buffer, for trees (tokens + full meta) and for errors (class, position, token).',
+         'bounded exhaustive differential enumeration (str vs bytes vs all windows) with an absolute coordinate anchor'),
 }
 NOT_YET = {}
 def main():
